@@ -7,7 +7,7 @@
 // "TAG:<n>\n" with a unique n; the secret outside every root has tag 99.  A case names the mode, the request as a list
 // of segment ids (joined with '/'), and optionally a leaf swap: the node `target` is atomically replaced by a symbolic
 // link to the secret right before the k-th call of a family (stat / realpath / open / read) inside round r of the
-// lookup - the model's SwapLeaf step.  stat, lstat, fstatat, statx, open, openat, realpath and read are DEFINED in this
+// lookup ("fam"/"nth" of the case; "pre" = before the round starts) - the model's SwapLeaf step.  stat, lstat, fstatat, statx, open, openat, realpath and read are DEFINED in this
 // executable (they interpose libstdc++'s std::filesystem and the header's own ::open/::read) and forward to libc via
 // dlsym(RTLD_NEXT).
 // Logged per lookup: result class, content tag, tag of the gzip variant, and - second oracle, from the OS - whether the
@@ -303,6 +303,7 @@ static const Node kTree[] = {
   {"site/templates2/a", 'f', 95, nullptr},
 };
 
+static void computeOsInside();
 static void writeFile(const std::string &p, int tag)
 {
   FILE *f = fopen(p.c_str(), "w");
@@ -330,6 +331,7 @@ static void buildTree(const std::string &root)
   fs::create_directories(root);
   g_root = fs::canonical(root).string();
   for (auto &n : kTree) makeNode(n);
+  computeOsInside();
 }
 static void restoreNode(const std::string &rel)
 {
@@ -346,23 +348,36 @@ static int tagOf(std::string_view bytes)
   if (bytes.size() < 5 || bytes.substr(0, 4) != "TAG:") return -1;
   return atoi(std::string(bytes.substr(4)).c_str());
 }
-// second oracle: where does the file that holds `tag` really live?
+// second oracle, from the OS: is the file that holds `tag` a regular file whose realpath lies inside the root?
+// Evaluated on the pristine tree (a swap only ever adds a link to the secret, which has its own tag), once per root.
+static std::map<std::string, std::map<int, bool>> g_osInside;
+static void computeOsInside()
+{
+  static auto rp = next<char *(*)(const char *, char *)>("realpath");
+  static auto ls = next<int (*)(const char *, struct stat *)>("lstat");
+  for (const char *rootRel : {"site/static", "site/templates"})
+    for (auto &n : kTree)
+      if (n.kind == 'f')
+      {
+        char buf[PATH_MAX];
+        std::string p = g_root + "/" + n.path;
+        struct stat st;
+        bool in = false;
+        if (rp(p.c_str(), buf) && ls(buf, &st) == 0 && S_ISREG(st.st_mode))
+        {
+          char rb[PATH_MAX];
+          std::string base = std::string(rp((g_root + "/" + rootRel).c_str(), rb) ? rb : "?") + "/";
+          in = std::string(buf).compare(0, base.size(), base) == 0;
+        }
+        g_osInside[rootRel][n.tag] = in;
+      }
+}
 static bool osInside(int tag, const std::string &rootRel)
 {
   if (tag == 21 || tag == 22) return true; // embedded in the binary, not a file
-  for (auto &n : kTree)
-    if (n.kind == 'f' && n.tag == tag)
-    {
-      char buf[PATH_MAX];
-      std::string p = g_root + "/" + n.path;
-      struct stat st;
-      static auto rp = next<char *(*)(const char *, char *)>("realpath");
-      static auto ls = next<int (*)(const char *, struct stat *)>("lstat");
-      if (!rp(p.c_str(), buf) || ls(buf, &st) != 0 || !S_ISREG(st.st_mode)) return false;
-      std::string real = buf, base = g_root + "/" + rootRel + "/";
-      return real.compare(0, base.size(), base) == 0;
-    }
-  return false;
+  auto &m = g_osInside[rootRel];
+  auto it = m.find(tag);
+  return it != m.end() && it->second;
 }
 
 static std::string segText(const std::string &id)
@@ -425,7 +440,8 @@ static std::string runCase(const std::string &line)
   segsJson += "]";
   const std::string swap = c["swap"].s;
   const int swapRound = (int)c["round"].i;
-  const std::string point = c["point"].s;
+  const std::string point = c["fam"].s; // "pre" | "stat" | "realpath" | "open" | "read"
+  const int nth = (int)c["nth"].i;
   std::string target;
   for (size_t i = 0; i < c["target"].a.size(); ++i) target += (i ? "/" : "") + c["target"].a[i].s;
   const std::string rootRel = (mode == "templates") ? "site/templates" : "site/static";
@@ -467,8 +483,8 @@ static std::string runCase(const std::string &line)
         doSwap();
       else
       {
-        g_family = point == "stat2" ? "stat" : point;
-        g_nth = point == "stat2" ? 2 : 1;
+        g_family = point;
+        g_nth = nth;
       }
     }
     g_armed = true;
@@ -487,7 +503,7 @@ static std::string runCase(const std::string &line)
     bool osIn = o.res == "found" ? osInside(o.tag, rootRel) : true;
     bool gzIn = (o.res == "found" && o.gz != 0) ? osInside(o.gz, rootRel) : true;
     vf::Ev e("Lookup");
-    e.str("mode", mode).raw("segs", segsJson).str("swap", swap).i("sround", swapRound).str("point", point);
+    e.str("mode", mode).raw("segs", segsJson).str("swap", swap).i("sround", swapRound).str("fam", point).i("nth", nth);
     e.i("round", r).b("swapped", g_swapped).str("res", o.res).i("tag", o.tag).i("gz", o.gz).b("os_in", osIn && gzIn);
     e.str("calls", g_calls);
     out += e.done() + "\n";
@@ -503,7 +519,7 @@ int main(int argc, char **argv)
     buildTree(argv[2]);
     for (const char *m : {"fs_cached", "fs_perreq", "embedded_ext", "templates"})
     {
-      std::string line = std::string("{\"mode\":\"") + m + "\",\"segs\":[\"dir\",\"a\"],\"swap\":\"none\",\"round\":0,\"point\":\"pre\",\"target\":[],\"rounds\":2}";
+      std::string line = std::string("{\"mode\":\"") + m + "\",\"segs\":[\"dir\",\"a\"],\"swap\":\"none\",\"round\":0,\"fam\":\"pre\",\"nth\":0,\"target\":[],\"rounds\":2}";
       printf("%s", runCase(line).c_str());
     }
     return 0;
